@@ -36,7 +36,7 @@ LEVEL_TEXT = ('Proof (table rows, command shapes of all converters) + oracle (al
               'options at the row\'s position while every other row is unchanged (for all units, keys and values); for every converter model the '
               'generated Exec line is proved to be the rendering of an explicit argument vector (podman, modules, GlobalArgs, subcommand, the key '
               'tables as contiguous blocks in table order, name=value blocks, PodmanArgs after the key-derived options, positional arguments last), '
-              'which by C01 is exactly what systemd splits it into (C02_string_option_reaches_podman end to end). Special keys: on the real converter, the argument-vector delta between a base unit and the base unit plus the key is compared with '
+              'which by C01 is exactly what systemd splits it into (C02_string_option_reaches_podman end to end). "Adding the key changes nothing else": for six of the seven converter models (all but .build) the whole command is proved to be the concatenation of the blocks of segments that each read the histories of their own keys only, no key being read twice (decided over the regenerated tables), so two units that differ in one key get commands that coincide argument for argument outside the block of that key (C02_<type>_delta), and every documented key but the naming ones has a block (<type>Keys_complete). Special keys: on the real converter, the argument-vector delta between a base unit and the base unit plus the key is compared with '
               'the documented option group, for every documented key and a set of adversarial values.')
 LEVEL_NOTE = 'Trusted: Lean kernel; extractor; frozen tables; correspondence of the converter models; the Python table of documented "special" keys used by the delta oracle.'
 TECHNIQUE = 'Lean 4 proofs (emitter frame/add-key lemmas, table conformance, command shapes of all seven converters) + correspondence + argument-delta oracle on the real converters'
